@@ -198,7 +198,161 @@ def extract_source(src):
     return ast.unparse(ast.fix_missing_locations(mod)), count
 
 
+def outline_source(src):
+    """extract-function, mechanically: in every module-level function / method with enough top-level statements one contiguous block of
+    top-level statements is moved into a new helper (`_<name>_part`), which gets the locals the block reads as parameters and returns the
+    locals it binds that are read afterwards.  RN_OUTLINE=first|middle|last picks where in the body the block is taken from."""
+    where = os.environ.get("RN_OUTLINE", "middle")
+    mod = ast.parse(src)
+    count = 0
+
+    def top_bound(st):
+        out = set()
+        if isinstance(st, ast.Assign):
+            for t in st.targets:
+                out |= {n.id for n in ast.walk(t) if isinstance(n, ast.Name)}
+        elif isinstance(st, (ast.AnnAssign, ast.AugAssign)) and isinstance(st.target, ast.Name) and (not isinstance(st, ast.AnnAssign) or st.value is not None):
+            out.add(st.target.id)
+        elif isinstance(st, (ast.Import, ast.ImportFrom)):
+            out |= {(a.asname or a.name).split(".")[0] for a in st.names}
+        elif isinstance(st, (ast.FunctionDef, ast.AsyncFunctionDef, ast.ClassDef)):
+            out.add(st.name)
+        elif isinstance(st, ast.With):
+            for it in st.items:
+                if it.optional_vars is not None:
+                    out |= {n.id for n in ast.walk(it.optional_vars) if isinstance(n, ast.Name)}
+            for b in st.body:
+                out |= top_bound(b)
+        elif isinstance(st, ast.If) and st.orelse:
+            a, b = set(), set()
+            for x in st.body:
+                a |= top_bound(x)
+            for x in st.orelse:
+                b |= top_bound(x)
+            out |= a & b
+        return out
+
+    def process(fn, owner):
+        nonlocal count
+        if fn.decorator_list and any(isinstance(d, ast.Name) and d.id in ("staticmethod", "classmethod") for d in fn.decorator_list):
+            return None
+        if any(isinstance(x, (ast.Yield, ast.YieldFrom, ast.Await, ast.Global, ast.Nonlocal)) for x in ast.walk(fn)):
+            return None
+        if any(isinstance(x, ast.Call) and isinstance(x.func, ast.Name) and x.func.id in ("locals", "vars", "super", "eval", "exec") for x in ast.walk(fn)):
+            return None
+        body = fn.body
+        start0 = 1 if body and isinstance(body[0], ast.Expr) and isinstance(body[0].value, ast.Constant) else 0
+        n = len(body)
+        if n - start0 < 5:
+            return None
+        params = _params(fn)
+        locs = _locals(fn) | params
+        # names bound by nested definitions and function-level imports are locals as well (a block that uses them needs them handed in)
+        for x in _own_nodes(fn):
+            if isinstance(x, (ast.FunctionDef, ast.AsyncFunctionDef, ast.ClassDef)):
+                locs.add(x.name)
+            elif isinstance(x, (ast.Import, ast.ImportFrom)):
+                locs |= {(a.asname or a.name).split(".")[0] for a in x.names}
+        is_method = owner is not None
+        selfname = fn.args.args[0].arg if is_method and fn.args.args else None
+        if is_method and selfname is None:
+            return None
+        maxlen = max(2, (n - start0) // 2)
+        cands = [(i, j) for i in range(start0, n) for j in range(i + 2, min(n, i + maxlen) + 1)]
+        if where == "first":
+            cands.sort(key=lambda ij: (ij[0], -(ij[1] - ij[0])))
+        elif where == "last":
+            cands.sort(key=lambda ij: (-ij[1], -(ij[1] - ij[0])))
+        else:
+            mid = (start0 + n) / 2
+            cands.sort(key=lambda ij: (abs((ij[0] + ij[1]) / 2 - mid), -(ij[1] - ij[0])))
+        for i, j in cands:
+            block = body[i:j]
+            if any(isinstance(x, (ast.Return, ast.FunctionDef, ast.AsyncFunctionDef, ast.ClassDef, ast.Lambda, ast.Delete, ast.Try)) for st in block for x in ast.walk(st)):
+                continue
+            if j >= n:
+                continue  # keep the function's tail (its return) in place
+            before_def = set(params)
+            for st in body[:i]:
+                before_def |= top_bound(st)
+            loaded = {x.id for st in block for x in ast.walk(st) if isinstance(x, ast.Name) and isinstance(x.ctx, ast.Load)}
+            stored = {x.id for st in block for x in ast.walk(st) if isinstance(x, ast.Name) and isinstance(x.ctx, (ast.Store, ast.Del))}
+            stored |= {(a.asname or a.name).split(".")[0] for st in block for x in ast.walk(st) if isinstance(x, (ast.Import, ast.ImportFrom)) for a in x.names}
+            # comprehension targets are stored names too but stay local to the comprehension: harmless over-approximation
+            block_def = set()
+            for st in block:
+                block_def |= top_bound(st)
+            aug = {x.target.id for st in block for x in ast.walk(st) if isinstance(x, ast.AugAssign) and isinstance(x.target, ast.Name)}
+            bound_anywhere_before = set(params)
+            for st in body[:i]:
+                bound_anywhere_before |= {x.id for x in ast.walk(st) if isinstance(x, ast.Name) and isinstance(x.ctx, ast.Store)}
+                bound_anywhere_before |= {x.name for x in ast.walk(st) if isinstance(x, (ast.FunctionDef, ast.AsyncFunctionDef, ast.ClassDef))}
+                bound_anywhere_before |= {(a.asname or a.name).split(".")[0] for x in ast.walk(st) if isinstance(x, (ast.Import, ast.ImportFrom)) for a in x.names}
+                bound_anywhere_before |= top_bound(st)
+            # every local the block reads (or augments) that may have a value when the block starts is handed in; it must then
+            # definitely have one
+            after_loaded0 = {x.id for st in body[j:] for x in ast.walk(st) if isinstance(x, ast.Name) and isinstance(x.ctx, ast.Load)}
+            # a local that the block may or may not rebind and that is read afterwards has to flow through the helper
+            passthrough = {v for v in (stored & locs & after_loaded0) if v not in block_def}
+            inputs = sorted(((loaded | aug | passthrough) & locs) & bound_anywhere_before)
+            if any(v not in before_def for v in inputs):
+                continue
+            # a local read in the block that has no binding before it must be bound by the block itself at top level
+            if any(v not in block_def for v in ((loaded & locs) - bound_anywhere_before)
+                   if v not in {x.id for st in block for c in ast.walk(st) if isinstance(c, (ast.ListComp, ast.SetComp, ast.DictComp, ast.GeneratorExp, ast.For))
+                                for x in ast.walk(c) if isinstance(x, ast.Name) and isinstance(x.ctx, ast.Store)}):
+                continue
+            after_loaded = {x.id for st in body[j:] for x in ast.walk(st) if isinstance(x, ast.Name) and isinstance(x.ctx, ast.Load)}
+            outputs = sorted((stored & locs) & after_loaded)
+            if any(v not in block_def and v not in before_def for v in outputs):
+                continue
+            if selfname in stored:
+                continue
+            count += 1
+            hname = "_%s_part%d" % (fn.name.strip("_"), count)
+            args = ([ast.arg(arg=selfname)] if is_method else []) + [ast.arg(arg=v) for v in inputs if v != selfname]
+            ret = []
+            if outputs:
+                ret = [ast.Return(value=ast.Tuple(elts=[ast.Name(id=v, ctx=ast.Load()) for v in outputs], ctx=ast.Load()) if len(outputs) > 1 else ast.Name(id=outputs[0], ctx=ast.Load()))]
+            helper = ast.FunctionDef(name=hname, args=ast.arguments(posonlyargs=[], args=args, vararg=None, kwonlyargs=[], kw_defaults=[], kwarg=None, defaults=[]),
+                                     body=block + ret, decorator_list=[], returns=None, type_comment=None, type_params=[])
+            callee = ast.Attribute(value=ast.Name(id=selfname, ctx=ast.Load()), attr=hname, ctx=ast.Load()) if is_method else ast.Name(id=hname, ctx=ast.Load())
+            call = ast.Call(func=callee, args=[ast.Name(id=v, ctx=ast.Load()) for v in inputs if v != selfname], keywords=[])
+            if not outputs:
+                site = ast.Expr(value=call)
+            elif len(outputs) == 1:
+                site = ast.Assign(targets=[ast.Name(id=outputs[0], ctx=ast.Store())], value=call)
+            else:
+                site = ast.Assign(targets=[ast.Tuple(elts=[ast.Name(id=v, ctx=ast.Store()) for v in outputs], ctx=ast.Store())], value=call)
+            fn.body[i:j] = [site]
+            return helper
+        return None
+
+    new_body = []
+    for st in mod.body:
+        if isinstance(st, ast.FunctionDef):
+            h = process(st, None)
+            if h is not None:
+                new_body.append(h)
+            new_body.append(st)
+        elif isinstance(st, ast.ClassDef):
+            extra = []
+            for m in list(st.body):
+                if isinstance(m, ast.FunctionDef):
+                    h = process(m, st)
+                    if h is not None:
+                        extra.append(h)
+            st.body.extend(extra)
+            new_body.append(st)
+        else:
+            new_body.append(st)
+    mod.body = new_body
+    return ast.unparse(ast.fix_missing_locations(mod)), count
+
+
 def renamed_source(src):
+    if os.environ.get("RN_TRANSFORM") == "outline":
+        return outline_source(src)
     if os.environ.get("RN_TRANSFORM") == "extract":
         return extract_source(src)
     if os.environ.get("RN_TRANSFORM") == "inline":
